@@ -181,7 +181,7 @@ struct sysdesc {
 /* kinds: 1 path(arg0) ; 2 dirfd(arg0)+path(arg1) ; 3 fd(arg0)+count(arg2) ; 4 fd(arg0) ;
  * 5 two paths (arg0,arg1) ; 6 dirfd,path,dirfd,path (arg0..3) ; 7 path(arg0),dirfd(arg1),path(arg2) (symlinkat)
  * 8 open(path=arg0, flags=arg1) ; 9 openat(dirfd=arg0,path=arg1,flags=arg2) ; 10 mmap ; 11 ioctl ;
- * 12 copy_file_range/sendfile (fd out) */
+ * 12 copy_file_range/sendfile (fd out) ; 13 symlink(linktext=arg0, path=arg1) */
 static const struct sysdesc SYS[] = {
     {SYS_read, "read", 3, 0},         {SYS_pread64, "pread64", 3, 0},     {SYS_readv, "readv", 3, 0},
     {SYS_write, "write", 3, 1},       {SYS_pwrite64, "pwrite64", 3, 1},   {SYS_writev, "writev", 3, 1},
@@ -193,7 +193,7 @@ static const struct sysdesc SYS[] = {
     {SYS_mkdir, "mkdir", 1, 1},       {SYS_mkdirat, "mkdirat", 2, 1},     {SYS_rmdir, "rmdir", 1, 1},
     {SYS_unlink, "unlink", 1, 1},     {SYS_unlinkat, "unlinkat", 2, 1},   {SYS_rename, "rename", 5, 1},
     {SYS_renameat, "renameat", 6, 1}, {SYS_renameat2, "renameat2", 6, 1}, {SYS_link, "link", 5, 1},
-    {SYS_linkat, "linkat", 6, 1},     {SYS_symlink, "symlink", 5, 1},     {SYS_symlinkat, "symlinkat", 7, 1},
+    {SYS_linkat, "linkat", 6, 1},     {SYS_symlink, "symlink", 13, 1},     {SYS_symlinkat, "symlinkat", 7, 1},
     {SYS_chmod, "chmod", 1, 1},       {SYS_fchmod, "fchmod", 4, 1},       {SYS_fchmodat, "fchmodat", 2, 1},
     {SYS_chown, "chown", 1, 1},       {SYS_fchown, "fchown", 4, 1},       {SYS_fchownat, "fchownat", 2, 1},
     {SYS_utimensat, "utimensat", 2, 1}, {SYS_truncate, "truncate", 1, 1}, {SYS_ftruncate, "ftruncate", 4, 1},
@@ -284,6 +284,15 @@ static int describe(struct thr *t, struct __ptrace_syscall_info *si, char *desc,
         esc(dp, ed, sizeof ed);
         esc(dp2, ed2, sizeof ed2);
         o = snprintf(desc, max, "path=%s dir=%s path2=%s dir2=%s", e1, ed, e2, ed2);
+        break;
+    case 13: /* symlink(linktext, linkpath) */
+        read_str(t->tid, a[0], p1, sizeof p1);
+        read_str(t->tid, a[1], p2, sizeof p2);
+        fd_path(t->tid, AT_FDCWD, dp2, sizeof dp2);
+        esc(p1, e1, sizeof e1);
+        esc(p2, e2, sizeof e2);
+        esc(dp2, ed2, sizeof ed2);
+        o = snprintf(desc, max, "linktext=%s path2=%s dir2=%s", e1, e2, ed2);
         break;
     case 7:
         read_str(t->tid, a[0], p1, sizeof p1);
